@@ -125,6 +125,13 @@ EDITS = {
         ("rn07", "crates/lib/mimium-lang/src/compiler/mirgen/convert_qualified_names.rs", "    if ctx.is_locally_bound(name) {\n        return Expr::Var(name).into_id(loc);\n    }\n", "", "verus", "resolve_names"),
         ("rn08", "crates/lib/mimium-lang/src/compiler/mirgen/convert_qualified_names.rs", "        if !is_public && !ctx.is_within_module_hierarchy(&target_path) {", "        if !is_public && ctx.is_within_module_hierarchy(&target_path) {", "verus", "resolve_names"),
         ("rn09", "crates/lib/mimium-lang/src/ast/program.rs", "        if exists(&relative_mangled) {\n            return (relative_mangled, relative_path);", "        if exists(&relative_mangled) {\n            return (relative_mangled, path_segments.to_vec());", "verus", "resolve_names"),
+        ("ut01", "crates/lib/mimium-lang/src/ast/program.rs", "        if *visibility == Visibility::Public {\n            let exported_name", "        if *visibility != Visibility::Public {\n            let exported_name", "verus", "use_tables"),
+        ("ut02", "crates/lib/mimium-lang/src/ast/program.rs", "            module_info.visibility_map.insert(exported_name, true);", "            module_info.visibility_map.insert(exported_name, true);\n            module_info.visibility_map.insert(mangled, true);", "verus", "use_tables"),
+        ("ut03", "crates/lib/mimium-lang/src/ast/program.rs", "        module_info.use_alias_map.insert(alias_name, mangled);\n\n", "        module_info.use_alias_map.insert(mangled, alias_name);\n\n", "verus", "use_tables"),
+        ("ut04", "crates/lib/mimium-lang/src/ast/program.rs", "                full_path.push(*name);\n", "", "verus", "use_tables"),
+        ("ut05", "crates/lib/mimium-lang/src/ast/program.rs", "            let base_mangled = if path.segments.is_empty() {", "            let base_mangled = if !path.segments.is_empty() {", "verus", "use_tables"),
+        ("ut06", "crates/lib/mimium-lang/src/ast/program.rs", "                register_alias(module_info, visibility, module_prefix, *name, mangled);", "                register_alias(module_info, &Visibility::Public, module_prefix, *name, mangled);", "verus", "use_tables"),
+        ("ut07", "crates/lib/mimium-lang/src/ast/program.rs", "        name\n    } else {\n        let path_str = prefix", "        name\n    } else if prefix.len() > 1 {\n        name\n    } else {\n        let path_str = prefix", "verus", "use_tables"),
     ],
     "C20": [
         ("ff01", RT + "ffi_serde.rs", "            Value::Store(_) => {\n                Err(\"Mutable stores cannot be serialized across FFI boundaries\".to_string())\n            }", "            Value::Store(_) => Ok(FfiValue::Unit),", "verus", "ffi_serde"),
